@@ -89,6 +89,16 @@ CASES = {
     "barycenter_spring_layout": lambda s: xgi.barycenter_spring_layout(xgi.Hypergraph([[0, 1], [1, 2, 3]]), seed=s),
     "weighted_barycenter_spring_layout": lambda s: xgi.weighted_barycenter_spring_layout(xgi.Hypergraph([[0, 1], [1, 2, 3]]), seed=s),
 }
+# cases whose mutable argument is the same object in both calls (an argument modified by the
+# first call is a different argument in the second): (make the argument once per path, call)
+SHARED = {
+    "uniform_hypergraph_configuration_model_sameobj": (lambda: {0: 1, 1: 1, 2: 1}, lambda k, s: xgi.uniform_hypergraph_configuration_model(k, 2, seed=s)),
+    "chung_lu_hypergraph_sameobj": (lambda: ({0: 1, 1: 1, 2: 1}, {0: 1, 1: 2}), lambda a, s: xgi.chung_lu_hypergraph(a[0], a[1], seed=s)),
+    "shuffle_hyperedges_sameobj": (lambda: xgi.Hypergraph([[0, 1], [1, 2], [0, 1, 2]]), lambda H, s: xgi.shuffle_hyperedges(H, 1, 0.5, seed=s)),
+    "flag_complex_sameobj": (lambda: nx.complete_graph(4), lambda G, s: xgi.flag_complex(G, max_order=3, ps=[0.5, 0.5], seed=s)),
+}
+for _n, (_mk, _call) in SHARED.items():
+    CASES[_n] = None
 FORWARDED = {"random_flag_complex_d2": "fast_gnp_random_graph", "random_flag_complex": "fast_gnp_random_graph",
              "pairwise_spring_layout": "spring_layout", "bipartite_spring_layout": "spring_layout",
              "barycenter_spring_layout": "spring_layout", "weighted_barycenter_spring_layout": "spring_layout"}
@@ -98,6 +108,9 @@ FORWARDED = {"random_flag_complex_d2": "fast_gnp_random_graph", "random_flag_com
 def twice(ctx, p):
     name = p["f"]
     f = CASES[name]
+    if name in SHARED:
+        shared_arg = SHARED[name][0]()
+        f = lambda seed_: SHARED[name][1](shared_arg, seed_)
     s = ctx.int("seed", -3, 3) if p.get("seedtype", "int") == "int" else ctx.int("seed", 0, 3)
     if p.get("seedtype") == "np.int64" and not ctx.symbolic:
         s = np.int64(s)  # integer seeds of another type (the symbolic run cannot tell them apart)
